@@ -10,7 +10,8 @@
   function `pattern → host → Bool`, produced from libc `regcomp/regexec` by harness/regex_oracle.c).
 
   Switches: D1 `cfg.fixDeleteAll` (`hostlist_delete` erases every occurrence of a name),
-            D2 `cfg.fixPushLoop` (`(n *= 2) < 0x7fffff` instead of `n*=2 < 0x7fffff`).
+            D2 `cfg.fixPushLoop` (the buffer of `list_push_hostlist` grows until the text fits — /repo b20e58e —
+            instead of `n*=2 < 0x7fffff`, which never grows it).
 -/
 import PdshVerif.Hostlist.Uniq
 import PdshVerif.Hostlist.Cli
@@ -76,22 +77,47 @@ def rangedText (rs : List HRange) : Str :=
   groupText.joinComma (rangedGroups (rs.length + 1) rs)
 
 /-! ### `list_push_hostlist` -/
+/-- `(size_t) -1` (LP64) -/
+def SIZE_MAX : Nat := ULONG_MAX
+
+/-- the loop of /repo b20e58e (F02-XFILE-4MIB repaired) from a FAILED attempt with a block of `n` bytes on:
+      `while (hostlist_ranged_string (hl, n-1, s) < 0) { if (n > SIZE_MAX/2) errx (..); n *= 2; Realloc (&s, n); }`
+    NO ceiling: the block doubles until the text fits; the only other way out is `errx` when `n` cannot be doubled
+    in a `size_t`.  The answer is the capacity of the block when the loop is left — by `errx` it is the block of
+    the failed attempt (the text does NOT fit it), otherwise the first block the text fits.  `none` = fuel exhausted. -/
+def growLoop (len : Nat) : Nat → Nat → Option Nat
+  | 0, _ => none
+  | f + 1, n =>
+    if n > SIZE_MAX / 2 then some n
+    else if len ≥ n * 2 - 1 then growLoop len f (n * 2) else some (n * 2)
+
+/-- rounds the driver gives `growLoop`: 4096 = 2^12 doubles 51 times to 2^63, the 52nd round is the `errx` -/
+def GROW_FUEL : Nat := 52
+
 /-- the doubling loop: `len` = length of the ranged text; the call `hostlist_ranged_string(hl, n-1, s)`
     fails iff the text and its NUL do not fit n-1 bytes.  The answer is the CAPACITY of the block `s` when
-    the loop is left: `Realloc (&s, n)` is the loop BODY, so when the ceiling test `(n *= 2) < 0x7fffff` ends
-    the loop the block still has the size of the last — failed — attempt (2^22) and holds its cut text.
-    DEFECT D2: `n*=2 < 0x7fffff` is `n *= (2 < 0x7fffff)`, i.e. `n *= 1`, a non-zero value: the
+    the loop is left.  `fix` (D2 repaired; probed on the real pdsh): the loop of b20e58e, `growLoop`.
+    DEFECT D2 (`fix = false`): `n*=2 < 0x7fffff` is `n *= (2 < 0x7fffff)`, i.e. `n *= 1`, a non-zero value: the
     buffer never grows and the loop never ends.   `none` = fuel exhausted. -/
 def pushLoop (fix : Bool) (len : Nat) : Nat → Nat → Option Nat
   | 0, _ => none
   | f + 1, n =>
     if len ≥ n - 1 then
-      (if fix then (if n * 2 < 0x7fffff then pushLoop fix len f (n * 2) else some n)
+      (if fix then growLoop len GROW_FUEL n
        else (if n * 1 ≠ 0 then pushLoop fix len f (n * 1) else some n))
     else some n
 
-/-- enough rounds for the repaired loop (4096·2^11 ≥ 0x7fffff) -/
+/-- rounds of the outer loop (only the unchanged D2 variant uses more than one) -/
 def PUSH_FUEL : Nat := 13
+
+/-- the loop as it was between 674182b (D2 repaired) and b20e58e: `(n *= 2) < 0x7fffff` as a CEILING, `Realloc` as
+    the loop body — when the ceiling ends the loop the block still has the size of the last, failed, attempt (2^22)
+    and holds its cut text (F02-XFILE-4MIB; kept for the witness theorem `exclusion_file_cut`, not executed) -/
+def pushLoopCeil (len : Nat) : Nat → Nat → Option Nat
+  | 0, _ => none
+  | f + 1, n =>
+    if len ≥ n - 1 then (if n * 2 < 0x7fffff then pushLoopCeil len f (n * 2) else some n)
+    else some n
 
 /-! ### results -/
 inductive Res where
@@ -141,19 +167,25 @@ def readHl (cfg : Cfg) : List Str → EL → XM EL
     | .ok e' => readHl cfg xs e'
     | .error r => .error r
 
-/-- `list_push_hostlist`: the entry pushed onto `exclude_list`.
-    FINDING F02-XFILE-4MIB: when the ceiling ends the loop (ranged form of the file ≥ 2^22 - 1 bytes) the entry is
-    the CUT text of the last attempt: the hosts behind the cut are not excluded (`pushHostlist_cut_iff`); the
-    model stops there (`ub`): what the cut text denotes is C14's `listPushHostlist`. -/
+/-- `list_push_hostlist`: the entry pushed onto `exclude_list` — the WHOLE ranged text of the file, or `errx`
+    ("exclusion list too long": the loop was left with a block the text does not fit, which only `growLoop`'s
+    `n > SIZE_MAX/2` exit does), or no return at all (unchanged D2). -/
 def pushHostlist (cfg : Cfg) (hl : EL) : XM Str :=
   let text := rangedText hl.ranges
   match pushLoop cfg.fixPushLoop text.length PUSH_FUEL 4096 with
   | none => .error .diverge
+  | some n => if text.length ≥ n - 1 then .error (.fatal "exclusion list too long") else .ok text
+
+/-- `list_push_hostlist` with the ceiling (674182b .. 95b0fc1): from 2^22 - 1 bytes on the entry is the CUT text of
+    the last attempt, the hosts behind the cut are not excluded; what the cut text denotes is not modelled (`ub`) -/
+def pushHostlistCeil (hl : EL) : XM Str :=
+  let text := rangedText hl.ranges
+  match pushLoopCeil text.length PUSH_FUEL 4096 with
+  | none => .error .diverge
   | some n => if text.length ≥ n - 1 then .error (.ub "exclusion text cut at 4 MiB") else .ok text
 
-/-- `list_push_hostlist` as proposed in findings/C02-XFILE4M.patch: the loop has no ceiling (it stops with a
-    diagnostic only when `n` cannot be doubled any more), the entry is always the whole text -/
-def pushHostlistR (hl : EL) : XM Str := .ok (rangedText hl.ranges)
+/-- `list_push_hostlist` of the repaired code (what `pushHostlist` is for every `cfg` with D2 repaired) -/
+def pushHostlistR (hl : EL) : XM Str := pushHostlist Cfg.repaired hl
 
 /-- `wcoll_arg_process` -/
 def argProcess (cfg : Cfg) (env : Env) (st : St) (arg : Str) : XM St :=
